@@ -186,5 +186,297 @@ theorem readLine_crlf (l rest : Bytes) (h : ∀ b ∈ l, b ≠ 10 ∧ b ≠ 13) 
     have := ih (fun x hx => h x (by simp [hx]))
     simp [readLine, hb.1, hb.2, this]
 
+/-! ### `mapM` in `Except`, well-formedness, and the size of what `writeBody` emits -/
+
+inductive All2 {β γ : Type} (P : β → γ → Prop) : List β → List γ → Prop
+  | nil : All2 P [] []
+  | cons {x y xs ys} : P x y → All2 P xs ys → All2 P (x :: xs) (y :: ys)
+
+theorem All2.length_eq {β γ : Type} {P : β → γ → Prop} {xs ys} (h : All2 P xs ys) : ys.length = xs.length := by
+  induction h with
+  | nil => rfl
+  | cons _ _ ih => simp [ih]
+
+theorem mapM_ok_cons {β γ : Type} (f : β → R γ) (x : β) (xs : List β) (ys : List γ)
+    (h : (x :: xs).mapM f = .ok ys) : ∃ y ys', ys = y :: ys' ∧ f x = .ok y ∧ xs.mapM f = .ok ys' := by
+  rw [List.mapM_cons] at h
+  cases hx : f x with
+  | error e => simp [hx, bind, Except.bind] at h
+  | ok y =>
+    cases hxs : xs.mapM f with
+    | error e => simp [hx, hxs, bind, Except.bind] at h
+    | ok ys' =>
+      simp [hx, hxs, bind, Except.bind, pure, Except.pure] at h
+      exact ⟨y, ys', h.symm, rfl, rfl⟩
+
+theorem mapM_ok_forall₂ {β γ : Type} (f : β → R γ) :
+    ∀ (xs : List β) (ys : List γ), xs.mapM f = .ok ys → All2 (fun x y => f x = .ok y) xs ys := by
+  intro xs
+  induction xs with
+  | nil => intro ys h; simp [pure, Except.pure] at h; subst h; exact .nil
+  | cons x xs ih =>
+    intro ys h
+    obtain ⟨y, ys', rfl, hx, hxs⟩ := mapM_ok_cons f x xs ys h
+    exact .cons hx (ih ys' hxs)
+
+theorem forall₂_flatten_length {β : Type} (P : β → Bytes → Prop) (k : Nat) (hP : ∀ x y, P x y → y.length = k) :
+    ∀ (xs : List β) (ys : List Bytes), All2 P xs ys → ys.flatten.length = xs.length * k := by
+  intro xs ys h
+  induction h with
+  | nil => simp
+  | cons hxy _ ih => simp [hP _ _ hxy, ih, Nat.succ_mul]; omega
+
+
+theorem WF_items (m : MeshVal α) (h : m.WF = true) : ∀ a ∈ m.attrs, ∀ x ∈ a.data, x.length = a.dim := by
+  intro a ha x hx
+  simp only [MeshVal.WF, Bool.and_eq_true, List.all_eq_true, decide_eq_true_eq] at h
+  have := h.1.1.2 a ha
+  exact this.2 x hx
+
+theorem find_mem (m : MeshVal α) (dim : Nat) (name : Bytes) (a : Attr α) (h : m.find dim name = some a) :
+    a ∈ m.attrs ∧ a.dim = dim := by
+  simp only [MeshVal.find] at h
+  have h1 := List.mem_of_find?_eq_some h
+  have h2 := List.find?_some h
+  exact ⟨h1, (of_decide_eq_true h2).1⟩
+
+theorem writerValues_length (m : MeshVal α) (hwf : m.WF = true) (w : WProp) (i : Nat) (comps : List α)
+    (h : writerValues m w i = .ok comps) : comps.length = w.names.length := by
+  simp only [writerValues] at h
+  split at h
+  · simp at h
+  · rename_i a ha
+    split at h
+    · simp at h
+    · rename_i x hx
+      simp at h; subst h
+      obtain ⟨hmem, hdim⟩ := find_mem m _ _ a ha
+      have := WF_items m hwf a hmem x (List.mem_of_getElem? hx)
+      simp [this, hdim, WProp.dim]
+
+theorem writerTypes_cons (w : WProp) (ws : List WProp) :
+    writerTypes (w :: ws) = w.names.map (fun _ => w.ty) ++ writerTypes ws := by
+  simp [writerTypes]
+
+theorem vertexRecord_length (m : MeshVal α) (hwf : m.WF = true) (i : Nat) :
+    ∀ (ws : List WProp) (r : List α), vertexRecord m ws i = .ok r → r.length = (writerTypes ws).length := by
+  intro ws
+  induction ws with
+  | nil => intro r h; simp [vertexRecord, pure, Except.pure, bind, Except.bind] at h; subst h; simp [writerTypes]
+  | cons w ws ih =>
+    intro r h
+    simp only [vertexRecord] at h
+    cases hp : (w :: ws).mapM (fun w => writerValues m w i) with
+    | error e => simp [hp, bind, Except.bind] at h
+    | ok parts =>
+      simp [hp, bind, Except.bind, pure, Except.pure] at h
+      subst h
+      obtain ⟨y, ys', rfl, hy, hys⟩ := mapM_ok_cons _ w ws parts hp
+      have h1 := writerValues_length m hwf w i y hy
+      have h2 := ih ys'.flatten (by simp [vertexRecord, hys, bind, Except.bind, pure, Except.pure])
+      simp [writerTypes_cons, h1, h2]
+
+
+theorem chunk3_length : ∀ (l : List Int) (tris : List (Int × Int × Int)), chunk3 l = some tris → tris.length = l.length / 3
+  | [], tris, h => by simp [chunk3] at h; simp [← h]
+  | [_], _, h => by simp [chunk3] at h
+  | [_, _], _, h => by simp [chunk3] at h
+  | a :: b :: c :: rest, tris, h => by
+    simp only [chunk3, Option.map_eq_some_iff] at h
+    obtain ⟨t, ht, rfl⟩ := h
+    have := chunk3_length rest t ht
+    simp [this]; omega
+
+theorem atIdx_mem {β : Type} (l : List β) (i : Int) (x : β) (h : atIdx l i = .ok x) : x ∈ l := by
+  simp only [atIdx] at h
+  split at h
+  · simp at h
+  · split at h
+    · rename_i y hy; simp at h; subst h; exact List.mem_of_getElem? hy
+    · simp at h
+
+/-- byte size of one binary face record of the writer -/
+def faceSize (hasTex : Bool) : Nat := 13 + (if hasTex then 25 else 0)
+
+theorem encFaceBin_length (c : Coding α) (e : Endian) (f : WFace α) :
+    (encFaceBin c e f).length = 13 + (match f.uv with | none => 0 | some uv => 1 + 4 * uv.length) := by
+  obtain ⟨⟨i0, i1, i2⟩, uv⟩ := f
+  cases uv with
+  | none => simp [encFaceBin, put32_length]
+  | some uv =>
+    simp only [encFaceBin, List.length_append, put32_length, List.length_cons, List.length_nil]
+    have : ((uv.map (fun v => put32 e (c.f32 v))).flatten).length = 4 * uv.length := by
+      induction uv with
+      | nil => simp
+      | cons x xs ih => simp [put32_length, ih]; omega
+    rw [this]; try omega
+
+theorem flatten_map_length {β : Type} (g : β → Bytes) (k : Nat) :
+    ∀ (l : List β), (∀ x ∈ l, (g x).length = k) → ((l.map g).flatten).length = l.length * k := by
+  intro l
+  induction l with
+  | nil => simp
+  | cons x xs ih =>
+    intro h
+    have h1 := h x (by simp)
+    have h2 := ih (fun y hy => h y (by simp [hy]))
+    simp only [List.map_cons, List.flatten_cons, List.length_append, List.length_cons, h1, h2, Nat.succ_mul]
+    omega
+
+theorem All2.forall_right {β γ : Type} {P : β → γ → Prop} {Q : γ → Prop} (hPQ : ∀ x y, P x y → Q y) {xs ys}
+    (h : All2 P xs ys) : ∀ y ∈ ys, Q y := by
+  induction h with
+  | nil => intro y hy; simp at hy
+  | cons hxy _ ih =>
+    intro y hy
+    simp at hy
+    rcases hy with rfl | hy
+    · exact hPQ _ _ hxy
+    · exact ih y hy
+
+theorem faceRecords_sizes (c : Coding α) (e : Endian) (m : MeshVal α) (hwf : m.WF = true) :
+    ∀ (tris : List (Int × Int × Int)) (fs : List (WFace α)), faceRecords m tris = .ok fs →
+      ((fs.map (encFaceBin c e)).flatten).length = tris.length * faceSize (hasTexCoord m) := by
+  intro tris fs h
+  simp only [faceRecords] at h
+  cases htex : m.find 2 texCoordAttr with
+  | none =>
+    simp [htex] at h; subst h
+    have : hasTexCoord m = false := by simp [hasTexCoord, MeshVal.has, htex]
+    rw [this, flatten_map_length _ (faceSize false)]
+    · simp
+    · intro f hf
+      simp only [List.mem_map] at hf
+      obtain ⟨t, _, rfl⟩ := hf
+      simp [encFaceBin_length, faceSize]
+  | some tex =>
+    have hT : hasTexCoord m = true := by simp [hasTexCoord, MeshVal.has, htex]
+    rw [hT]
+    simp only [htex] at h
+    obtain ⟨hmem, hdim⟩ := find_mem m _ _ tex htex
+    have hitem : ∀ x ∈ tex.data, x.length = 2 := fun x hx => by rw [WF_items m hwf tex hmem x hx, hdim]
+    have hall := mapM_ok_forall₂ _ tris fs h
+    have hlen := hall.length_eq
+    have huv : ∀ f ∈ fs, ∃ uv, f.uv = some uv ∧ uv.length = 6 := by
+      refine All2.forall_right (Q := fun f => ∃ uv, f.uv = some uv ∧ uv.length = 6) ?_ hall
+      intro t f hxy
+      obtain ⟨a, b, c'⟩ := t
+      simp only [] at hxy
+      cases h1 : atIdx tex.data a with
+      | error e => simp [h1, bind, Except.bind] at hxy
+      | ok p1 =>
+        cases h2 : atIdx tex.data b with
+        | error e => simp [h1, h2, bind, Except.bind] at hxy
+        | ok p2 =>
+          cases h3 : atIdx tex.data c' with
+          | error e => simp [h1, h2, h3, bind, Except.bind] at hxy
+          | ok p3 =>
+            simp [h1, h2, h3, bind, Except.bind, pure, Except.pure] at hxy
+            subst hxy
+            have l1 := hitem p1 (atIdx_mem _ _ _ h1)
+            have l2 := hitem p2 (atIdx_mem _ _ _ h2)
+            have l3 := hitem p3 (atIdx_mem _ _ _ h3)
+            exact ⟨_, rfl, by simp [l1, l2, l3]⟩
+    rw [flatten_map_length _ (faceSize true), hlen]
+    intro f hf
+    obtain ⟨uv, huv1, huv2⟩ := huv f hf
+    simp [encFaceBin_length, huv1, huv2, faceSize]
+
+
+theorem All2.imp {β γ : Type} {P Q : β → γ → Prop} (hPQ : ∀ x y, P x y → Q x y) {xs ys} (h : All2 P xs ys) : All2 Q xs ys := by
+  induction h with
+  | nil => exact .nil
+  | cons hxy _ ih => exact .cons (hPQ _ _ hxy) ih
+
+theorem All2.flatten_length {β : Type} {P : β → Bytes → Prop} (k : Nat) (hP : ∀ x y, P x y → y.length = k) {xs ys}
+    (h : All2 P xs ys) : ys.flatten.length = xs.length * k := by
+  induction h with
+  | nil => simp
+  | cons hxy _ ih => simp only [List.flatten_cons, List.length_append, List.length_cons, hP _ _ hxy, ih, Nat.succ_mul]; omega
+
+/-- the vertex block of a binary body: one record of Σ size(header types) bytes per vertex -/
+theorem vertexBlock_length (c : Coding α) (e : Endian) (m : MeshVal α) (hwf : m.WF = true) (ws : List WProp)
+    (recs : List (List α)) (vbytes : List Bytes)
+    (hrecs : (List.range m.attrLen).mapM (vertexRecord m ws) = .ok recs)
+    (hv : recs.mapM (fun r => encRecordBin c e (writerTypes ws) r) = .ok vbytes) :
+    vbytes.flatten.length = m.attrLen * ((writerTypes ws).map SType.size).sum := by
+  have h1 := mapM_ok_forall₂ _ _ _ hrecs
+  have hlen : recs.length = m.attrLen := by simpa using h1.length_eq
+  have hr : ∀ r ∈ recs, r.length = (writerTypes ws).length :=
+    All2.forall_right (Q := fun r => r.length = (writerTypes ws).length)
+      (fun i r hir => vertexRecord_length m hwf i ws r hir) h1
+  have h2 := mapM_ok_forall₂ _ _ _ hv
+  have h3 : ∀ r ∈ recs, ∀ bs, encRecordBin c e (writerTypes ws) r = .ok bs → bs.length = ((writerTypes ws).map SType.size).sum :=
+    fun r hr' bs hbs => encRecordBin_length c e _ r bs (hr r hr') hbs
+  -- restrict the relation to members of recs
+  have h4 : ∀ {xs : List (List α)} {ys : List Bytes}, All2 (fun r bs => encRecordBin c e (writerTypes ws) r = .ok bs) xs ys →
+      (∀ r ∈ xs, r ∈ recs) → ys.flatten.length = xs.length * ((writerTypes ws).map SType.size).sum := by
+    intro xs ys hall
+    induction hall with
+    | nil => intro _; simp
+    | cons hxy _ ih =>
+      intro hsub
+      have := h3 _ (hsub _ (by simp)) _ hxy
+      have := ih (fun r hr' => hsub r (by simp [hr']))
+      simp only [List.flatten_cons, List.length_append, List.length_cons, Nat.succ_mul, *]; omega
+  rw [h4 h2 (fun r hr' => hr'), hlen]
+
+
+theorem writeBody_binary_length (c : Coding α) (cfg : WriterCfg) (m : MeshVal α) (body : Bytes)
+    (hf : cfg.format ≠ .ascii) (hwf : m.WF = true) (h : writeBody c cfg m = .ok body) :
+    body.length = m.attrLen * ((writerTypes (selectWriters cfg m)).map SType.size).sum
+      + (if m.topo = .triangle then triCount m * faceSize (hasTexCoord m) else 0) := by
+  simp only [writeBody] at h
+  cases hrecs : (List.range m.attrLen).mapM (vertexRecord m (selectWriters cfg m)) with
+  | error e => simp [hrecs, bind, Except.bind] at h
+  | ok recs =>
+    simp only [hrecs, bind, Except.bind] at h
+    cases hfmt : cfg.format with
+    | ascii => exact absurd hfmt hf
+    | le =>
+      simp only [hfmt] at h
+      cases hv : recs.mapM (fun r => encRecordBin c Format.le.endian (writerTypes (selectWriters cfg m)) r) with
+      | error e => simp [hv] at h
+      | ok vbytes =>
+        simp only [hv] at h
+        have hvb := vertexBlock_length c _ m hwf _ recs vbytes hrecs hv
+        by_cases htri : m.topo = .triangle
+        · simp only [htri, ne_eq, not_true_eq_false, if_false, if_true] at h ⊢
+          cases hc : chunk3 m.indices with
+          | none => simp [hc] at h
+          | some tris =>
+            simp only [hc] at h
+            cases hfs : faceRecords m tris with
+            | error e => simp [hfs] at h
+            | ok fs =>
+              simp [hfs, pure, Except.pure] at h
+              subst h
+              have := faceRecords_sizes c Format.le.endian m hwf tris fs hfs
+              simp [hvb, this, chunk3_length _ _ hc, triCount]
+        · simp [htri, pure, Except.pure] at h ⊢
+          subst h; exact hvb
+    | be =>
+      simp only [hfmt] at h
+      cases hv : recs.mapM (fun r => encRecordBin c Format.be.endian (writerTypes (selectWriters cfg m)) r) with
+      | error e => simp [hv] at h
+      | ok vbytes =>
+        simp only [hv] at h
+        have hvb := vertexBlock_length c _ m hwf _ recs vbytes hrecs hv
+        by_cases htri : m.topo = .triangle
+        · simp only [htri, ne_eq, not_true_eq_false, if_false, if_true] at h ⊢
+          cases hc : chunk3 m.indices with
+          | none => simp [hc] at h
+          | some tris =>
+            simp only [hc] at h
+            cases hfs : faceRecords m tris with
+            | error e => simp [hfs] at h
+            | ok fs =>
+              simp [hfs, pure, Except.pure] at h
+              subst h
+              have := faceRecords_sizes c Format.be.endian m hwf tris fs hfs
+              simp [hvb, this, chunk3_length _ _ hc, triCount]
+        · simp [htri, pure, Except.pure] at h ⊢
+          subst h; exact hvb
+
 end PlyLemmas
 end PolyVerif
